@@ -77,6 +77,14 @@ func (p *script) DescribeKey(ctx context.Context, req *pf.DescribeKeyRequest) (*
 	if p.describeSpec != "" {
 		spec = p.describeSpec
 	}
+	switch p.describeSpec {
+	case "leading-zero": // RSA-02048, EC-0256: not one of the key specs the contract names
+		spec = strings.Replace(p.keySpecName, "-", "-0", 1)
+	case "plus-sign":
+		spec = strings.Replace(p.keySpecName, "-", "-+", 1)
+	case "lower-case":
+		spec = strings.ToLower(p.keySpecName)
+	}
 	return &pf.DescribeKeyResponse{KeyID: id, KeySpec: pf.KeySpec(spec)}, nil
 }
 func (p *script) GenerateSignature(ctx context.Context, req *pf.GenerateSignatureRequest) (*pf.GenerateSignatureResponse, error) {
@@ -317,6 +325,19 @@ func main() {
 		{"describe-key-spec-unknown", "raw", func(s *script) { s.describeSpec = "EC-999" }, true},
 		{"describe-key-spec-empty", "raw", func(s *script) { s.describeSpec = " " }, true},
 		{"describe-key-spec-mismatch", "raw", func(s *script) { s.describeSpec = "mismatch" }, true},
+		{"describe-key-spec-size-with-leading-zero", "raw", func(s *script) { s.describeSpec = "leading-zero" }, true},
+		{"describe-key-spec-size-with-plus-sign", "raw", func(s *script) { s.describeSpec = "plus-sign" }, true},
+		{"describe-key-spec-lower-case", "raw", func(s *script) { s.describeSpec = "lower-case" }, true},
+		// a plugin that declares BOTH signing capabilities (the raw path is taken) and answers describe-key for another key / with no usable spec
+		{"dual-capability-describe-key-id", "raw", func(s *script) {
+			s.caps, s.describeKeyID = []pf.Capability{pf.CapabilitySignatureGenerator, pf.CapabilityEnvelopeGenerator}, "another-key"
+		}, true},
+		{"dual-capability-describe-key-spec-unknown", "raw", func(s *script) {
+			s.caps, s.describeSpec = []pf.Capability{pf.CapabilitySignatureGenerator, pf.CapabilityEnvelopeGenerator}, "RSA-1024"
+		}, true},
+		{"dual-capability-describe-key-spec-empty", "raw", func(s *script) {
+			s.caps, s.describeSpec = []pf.Capability{pf.CapabilityEnvelopeGenerator, pf.CapabilitySignatureGenerator}, " "
+		}, true},
 		{"generate-signature-key-id", "raw", func(s *script) { s.genKeyID = "another-key" }, true},
 		{"chain-of-another-key", "raw", func(s *script) { s.chain = "other" }, true},
 		{"chain-empty", "raw", func(s *script) { s.chain = "empty" }, true},
